@@ -248,6 +248,57 @@ def run(tier, replay=None):
                 ev["lib"] = [{"title": "Cyclic dependency", "level": "Error", "file": info["dirfile"], "line": info["dirline"], "c0": 0, "c1": 0, "kind": "Cyclic dependency"}]
                 evs.append(ev)
                 cases.append(({"fault": "cycle-through-subdirectory"}, info, texts))
+    # nested includes below a sub-directory: a path is resolved against the directory of the file that names it
+    # (rva binary only: the in-memory reader has a flat name space)
+    with tempfile.TemporaryDirectory(dir=WORK) as td:
+        for k, sub in enumerate(("lib", "a/b")):
+            texts = {"main.s": f'main:\n    li t1, 2\n.include "{sub}/outer.s"\n    li a7, 10\n    ecall\n',
+                     f"{sub}/outer.s": '    li t2, 3\n.include "inner.s"\n    li t3, 4\n',
+                     f"{sub}/inner.s": "    li t4, 5\n    addi t5, t5\n"}
+            flat_lines, origin = [], []
+            def walk(name):
+                for i, ln in enumerate(texts[name].split("\n")):      # as `flatten` above: the empty piece after a final newline is a line
+                    m = re.match(r'^\s*\.include "([^"]+)"', ln)
+                    if m:
+                        walk(os.path.normpath(os.path.join(os.path.dirname(name), m.group(1))))
+                    else:
+                        flat_lines.append(ln)
+                        origin.append((name, i))
+            walk("main.s")
+            dd, df = os.path.join(td, f"n{k}"), os.path.join(td, f"f{k}")
+            for n, t in texts.items():
+                os.makedirs(os.path.dirname(os.path.join(dd, n)), exist_ok=True)
+                open(os.path.join(dd, n), "w").write(t)
+            os.makedirs(df)
+            open(os.path.join(df, "main.s"), "w").write("\n".join(flat_lines))
+
+            def run_json2(dirp):
+                try:
+                    q = subprocess.run([rva, "lint", os.path.join(dirp, "main.s"), "--json"], stdout=subprocess.PIPE, stderr=subprocess.DEVNULL, timeout=10)
+                    res = []
+                    for x in json.loads(q.stdout.decode("utf-8", "replace"))["diagnostics"]:
+                        f = x["file"] or ""
+                        fn = os.path.relpath(os.path.realpath(f), os.path.realpath(dirp)) if f else ""
+                        title = "(parse error)" if x["title"].startswith("Expected ") else x["title"]
+                        res.append({"title": title, "level": x["level"], "file": fn, "line": x["range"]["start"]["line"],
+                                    "c0": 0 if title == "(parse error)" else x["range"]["start"]["column"],
+                                    "c1": 0 if title == "(parse error)" else x["range"]["end"]["column"], "kind": x["title"].split(":")[0]})
+                    return res
+                except (subprocess.TimeoutExpired, ValueError, KeyError):
+                    return None
+            ncli += 2
+            got, flat = run_json2(dd), run_json2(df)
+            # what the flattened file says, carried back to the file and line each line came from
+            want = [dict(x, file=origin[x["line"]][0], line=origin[x["line"]][1]) for x in (flat or []) if x["line"] < len(origin)]
+            tree = {n: [({"t": "inc", "f": os.path.normpath(os.path.join(os.path.dirname(n), m.group(1)))} if (m := re.match(r'^\s*\.include "([^"]+)"', ln)) else {"t": "l", "f": ""})
+                        for ln in t.split("\n")] for n, t in texts.items()}
+            info = {"fault": "none"}
+            ev = {"ev": "inc", "id": len(evs) + 1, "case": info, "tree": tree, "lib_ev": "obs", "lib": want, "flat": flat or [], "lib_twin": [],
+                  "cli_ev": "ok" if got is not None and flat is not None else "timeout", "cli_all": got or [],
+                  "cli_base": [x for x in (got or []) if x["file"] == "main.s"], "cli_hidden": len([x for x in (got or []) if x["file"] != "main.s"]),
+                  "cli_twin": [], "cli_only": True, "cli_af": got or [], "cli_af_hidden": 0}
+            evs.append(ev)
+            cases.append(({"fault": "none", "nested-directory": sub}, info, texts))
     for e in evs:
         e.setdefault("cli_only", False)
         e.setdefault("cli_af", [])
